@@ -346,8 +346,8 @@ static void hullFloatCase(const std::string& id, const std::string& kind, const 
       ld d = dot(n, sub(V3{(ld)p.x, (ld)p.y, (ld)p.z}, a)) / nn;
       worst = std::max(worst, d);
       if (d > allow) { ok = false; std::ostringstream s;
-        // known finding (known_findings.txt): on thin capsules QuickHull drops input points of the end caps; the lost points stay within a fraction of the cap radius
-        if (capsuleRad > 0 && d <= 0.3L * capsuleRad) s << "hull-thin-capsule-drops-points: Hull of two round clusters of radius " << capsuleRad << " far apart leaves an input point " << (double)d << " outside a face plane, allowance " << (double)allow;
+        // known finding (known_findings.txt): on thin capsules QuickHull drops input points of the end caps; a lost point can be at most one cap radius outside the hull of the others
+        if (capsuleRad > 0 && d <= (ld)capsuleRad) s << "hull-thin-capsule-drops-points: Hull of two round clusters of radius " << capsuleRad << " far apart leaves an input point " << (double)d << " outside a face plane, allowance " << (double)allow;
         else s << "hullf-point-outside: an input point is " << (double)d << " outside a face plane, allowance " << (double)allow;
         msg = s.str(); break; }
     }
@@ -368,7 +368,7 @@ static void hullFloatCases(int n) {
     std::vector<vec3> pts; std::string kind; Manifold h; double capRad = 0;
     int which = i % 8;
     if (which == 7) {   // thin capsules: two small round solids far apart (the base triangle of the initial tetrahedron is a sliver, its un-normalised normal is tiny)
-      kind = "capsule"; double rad = pow(10, urange(-5, -1)); capRad = 0.5 * rad; double len = pow(10, urange(-0.5, 1.5)); int seg = 4 * (1 + (int)R->below(8));
+      kind = "capsule"; double rad = pow(10, urange(-5, -1)); capRad = rad; double len = pow(10, urange(-0.5, 1.5)); int seg = 4 * (1 + (int)R->below(8));
       double c1 = cos(urange(0, 3.14)), s1 = sqrt(1 - c1 * c1); bool axis = R->below(2) == 0; vec3 dir = axis ? vec3(1, 0, 0) : vec3(c1, s1 * 0.6, s1 * 0.8);
       std::vector<Manifold> ms{Manifold::Sphere(rad, seg), Manifold::Sphere(rad * urange(0.5, 1), seg).Translate(dir * len)};
       for (auto& m : ms) { MeshGL64 g = m.GetMeshGL64(); for (size_t v = 0; v < g.NumVert(); v++) pts.push_back(vec3(g.vertProperties[v * g.numProp], g.vertProperties[v * g.numProp + 1], g.vertProperties[v * g.numProp + 2])); }
